@@ -386,3 +386,131 @@ def build_all():
     bad = {k: v for k, v in st.items() if v["status"] != "ok"}
     print("portfolio shapes: %d ok, %d not: %s" % (len(st) - len(bad), len(bad), bad))
     return runner is not None
+
+
+# ---------------------------------------------------------------------------
+# the bounded grammar of C05: node = leaf(req|opt|rep) | group(req|opt|rep, 1..2 children),
+# depth <= 3, root with 1..2 children, <= 3 leaves; leaf types cycle through the 8 primitives
+
+REPS = ("req", "opt", "rep")
+
+
+def _nodes(depth, maxleaves):
+    """[(tree, nleaves)] where tree = (rep, None) for a leaf or (rep, [children])"""
+    out = []
+    if maxleaves < 1:
+        return out
+    for r in REPS:
+        out.append(((r, None), 1))
+    if depth > 1:
+        for kids, n in _kidlists(depth - 1, maxleaves):
+            for r in REPS:
+                out.append(((r, kids), n))
+    return out
+
+
+def _kidlists(depth, maxleaves):
+    out = []
+    one = _nodes(depth, maxleaves)
+    for t, n in one:
+        out.append(([t], n))
+    for t1, n1 in one:
+        for t2, n2 in _nodes(depth, maxleaves - n1):
+            out.append(([t1, t2], n1 + n2))
+    return out
+
+
+def tree_key(kids):
+    def k(t):
+        r, ch = t
+        return r if ch is None else "%s{%s}" % (r, ",".join(k(c) for c in ch))
+    return ",".join(k(t) for t in kids)
+
+
+def tree_depth(kids):
+    def d(t):
+        return 1 if t[1] is None else 1 + max(d(c) for c in t[1])
+    return max(d(t) for t in kids)
+
+
+def grammar_trees():
+    return [kids for kids, n in _kidlists(3, 3)]
+
+
+def shape_of_tree(name, kids, type_offset=0):
+    counter = [0]
+    leafno = [type_offset]
+
+    def mk(t):
+        r, ch = t
+        counter[0] += 1
+        fname = "F%d" % counter[0]
+        if ch is None:
+            p = PRIMS[leafno[0] % len(PRIMS)]
+            leafno[0] += 1
+            return F(fname, r, p)
+        return F(fname, r, [mk(c) for c in ch])
+    return Shape(name, [mk(t) for t in kids], desc=tree_key(kids))
+
+
+def grammar_sample(tier):
+    """fixed (seed-independent) shape sets: quick = all shapes of depth 1 and a stratified
+    sample of the rest; thorough = all of depth <= 2 and a stratified 3000 of depth 3"""
+    import random as _r
+    trees = grammar_trees()
+    by_depth = {}
+    for t in trees:
+        by_depth.setdefault(tree_depth(t), []).append(t)
+    rng = _r.Random(20260928)
+    chosen = list(by_depth.get(1, []))
+    if tier == "quick":
+        chosen += rng.sample(by_depth.get(2, []), min(70, len(by_depth.get(2, []))))
+        chosen += rng.sample(by_depth.get(3, []), min(68, len(by_depth.get(3, []))))
+    else:
+        chosen += by_depth.get(2, [])
+        chosen += rng.sample(by_depth.get(3, []), min(1000, len(by_depth.get(3, []))))
+    out = []
+    for i, t in enumerate(chosen):
+        out.append(shape_of_tree("g%04d" % i, t, type_offset=i))
+    return out
+
+
+def enum_values(rng, fields, cap=40, rng_struct=None):
+    """structurally distinct records: every combination of nil/non-nil and list lengths 0,1,2
+    at every level, capped by a random covering sample"""
+    rs = rng_struct or rng
+
+    def field_opts(f):
+        def one():
+            if f.is_leaf():
+                return [[gen_leaf(rng, f.typ, 0.4)]]
+            return group_opts(f.typ)
+        if f.rep == "req":
+            return one()
+        if f.rep == "opt":
+            return [["N"]] + one()
+        outs = [["L", "0"]]
+        o = one()
+        for x in o[:3]:
+            outs.append(["L", "1"] + x)
+        for x in o[:2]:
+            for y in o[:2]:
+                outs.append(["L", "2"] + x + y)
+        return outs
+
+    def group_opts(fs):
+        acc = [["G", str(len(fs))]]
+        for f in fs:
+            opts = field_opts(f)
+            nxt = []
+            for a in acc:
+                for o in opts:
+                    nxt.append(a + o)
+            if len(nxt) > 400:
+                nxt = rs.sample(nxt, 400)
+            acc = nxt
+        return acc
+    allv = [" ".join(v) for v in group_opts(fields)]
+    if len(allv) > cap:
+        allv = rs.sample(allv, cap)
+    return allv
